@@ -934,10 +934,11 @@ def run_crawl_case(case, part):
     rowmap = {r['url']: r for r in rows}
     s = rowmap.get('http://a.test/sentinel.html')
     served = [e for e in log if e['target'] == '/sentinel.html' and e.get('served')]
-    if case.get('second_run') and '--continue' in (case.get('options') or []):
-        # the second run asks for the rest of files it already has; the harness server ignores Range, so its own pages
-        # (start page, sentinel) fail as per-URL errors too.  Only the crash / unfinished-row verdicts apply.
-        part.count('crawl_second_run_with_continue')
+    if '--continue' in (case.get('options') or []):
+        # a file that exists already is asked for from its end; the harness server ignores Range, so such a URL fails as a
+        # per-URL error.  That happens to the server's own pages on a second run, and in a first run when the hostile URL
+        # redirects to the sentinel and saves it first.  Only the crash / unfinished-row verdicts apply.
+        part.count('crawl_with_continue')
     elif s and s['status'] == 'done':
         part.count('crawl_sentinel_done')
     elif s and s['status'] in ('skipped', 'error') and not served:
